@@ -62,6 +62,14 @@ def addconn_race(ctx):
     if cc.get("_died"):
         raise lib.Inconclusive("close-vs-close stress died: %s" % cc.get("_stdout_tail"))
     ctx.log("close-vs-close race: %d rounds, %d violations" % (cc["stats"].get("rounds", 0), len(cc.get("violations", []))))
+    # deep reordering backlogs of one stream (thousands of frames parked behind a late one; Reassembly.tla holds for every N:
+    # ReassemblyIndProof): the C02 driver's deep rounds on the real streamBuffer; what does not come out is missing bytes here
+    deep = lib.run_go(ctx, "multiplex", "TestVerifC02Trace", env={"C02_DEEP_ONLY": "1"}, timeout=900, tag="deep_backlog", prefixes=("c02", "shared"))
+    for v in deep.get("violations", []):
+        ctx.violations.append(dict(v, key="bytes-missing", what="deep reordering backlog: " + v.get("what", "")))
+    if deep.get("_died") or not deep.get("complete", False):
+        raise lib.Inconclusive("deep-backlog rounds died: %s" % deep.get("_stdout_tail"))
+    ctx.log("deep backlogs: %d rounds, %d frames, %d violations" % (deep["stats"].get("deep_rounds", 0), deep["stats"].get("deep_frames", 0), len(deep.get("violations", []))))
     # client.MakeSession's retry loop (spec/ClientSession.tla): every script of failed dials / failed handshakes, in a bubble
     beh = []
     for mode, br in (("direct", "chrome"), ("direct", "firefox"), ("direct", "safari")):
